@@ -508,8 +508,80 @@ let run_pjsondec payload =
      | DFuel -> L [A "out-of-fuel"])
   | _ -> failwith "pjsondec payload"
 
+(* ---- schema resolution ---- *)
+let rec sty_of_sx (s : Sexp.t) : sty =
+  match s with
+  | L [A "string"] -> TyString | L [A "long"] -> TyLong | L [A "bool"] -> TyBool
+  | L [A "ext"; A n] -> TyExt (str_of_atom n)
+  | L [A "set"; t] -> TySet (sty_of_sx t)
+  | L (A "rec" :: fs) -> TyRec (srec_of_sx fs)
+  | L [A "ent"; A r] -> TyEnt (str_of_atom r)
+  | L [A "ref"; A r] -> TyRef (str_of_atom r)
+  | s -> failwith ("bad schema type " ^ to_string s)
+and srec_of_sx fs = List.map (function L [A k; t; A o] -> (str_of_atom k, (sty_of_sx t, o = "1")) | _ -> failwith "rec field") fs
+
+let rec sx_of_rty (t : rty) : Sexp.t =
+  match t with
+  | RString -> L [A "string"] | RLong -> L [A "long"] | RBool0 -> L [A "bool"]
+  | RExt n -> L [A "ext"; A (atom_of_str n)]
+  | RSet e -> L [A "set"; sx_of_rty e]
+  | RRec fs -> sx_of_rrec fs
+  | REnt n -> L [A "ent"; A (atom_of_str n)]
+and sx_of_rrec fs =
+  let fs = List.sort (fun (a, _) (b, _) -> compare (atom_of_str a) (atom_of_str b)) fs in
+  (* later duplicate keys win in a Go map: keep the last binding of each key *)
+  let rec dedup = function [] -> [] | (k, v) :: r -> if List.exists (fun (k2, _) -> k2 = k) r then dedup r else (k, v) :: dedup r in
+  L (A "rec" :: List.map (fun (k, (t, o)) -> L [A (atom_of_str k); sx_of_rty t; A (if o then "1" else "0")]) (dedup fs))
+
+let run_schemaresolve payload =
+  match payload with
+  | [L (A "schema" :: nss)] ->
+    let ns_of = function
+      | L [A "ns"; A name; L (A "entities" :: es); L (A "enums" :: ens); L (A "commons" :: cs); L (A "actions" :: acts)] ->
+        { sn_name = str_of_atom name;
+          sn_entities = List.map (function
+              | L [A "ent"; A n; L (A "parents" :: ps); L [A "shape"; sh]; L [A "tags"; tg]] ->
+                { se_name = str_of_atom n; se_parents = List.map (fun p -> str_of_atom (atom p)) ps;
+                  se_shape = (match sh with A "none" -> None | L (A "rec" :: fs) -> Some (srec_of_sx fs) | _ -> failwith "shape");
+                  se_tags = (match tg with A "none" -> None | t -> Some (sty_of_sx t)) }
+              | _ -> failwith "ent") es;
+          sn_enums = List.map (fun e -> str_of_atom (atom e)) ens;
+          sn_commons = List.map (function L [A n; t] -> (str_of_atom n, sty_of_sx t) | _ -> failwith "common") cs;
+          sn_actions = List.map (function
+              | L [A "act"; A n; L (A "parents" :: ps); L [A "applies"; ap]] ->
+                { sac_name = str_of_atom n;
+                  sac_parents = List.map (function L [A t; A i] -> (str_of_atom t, str_of_atom i) | _ -> failwith "aparent") ps;
+                  sac_applies = (match ap with
+                      | A "none" -> None
+                      | L [A "ap"; L (A "principals" :: pr); L (A "resources" :: rr); L [A "context"; cx]] ->
+                        Some { sa_principals = List.map (fun p -> str_of_atom (atom p)) pr; sa_resources = List.map (fun p -> str_of_atom (atom p)) rr;
+                               sa_context = (match cx with A "none" -> None | t -> Some (sty_of_sx t)) }
+                      | _ -> failwith "applies") }
+              | _ -> failwith "act") acts }
+      | _ -> failwith "ns" in
+    (match resolve_schema (List.map ns_of nss) with
+     | VErr -> L [A "err"]
+     | VFuel -> L [A "out-of-fuel"]
+     | VOk r ->
+       let uid_sx (t, i) = L [A "e"; A (atom_of_str t); A (atom_of_str i)] in
+       (* Go maps: the last registration of a name wins; present sorted *)
+       let last_wins key l = let rec go = function [] -> [] | x :: r -> if List.exists (fun y -> key y = key x) r then go r else x :: go r in go l in
+       let ents = List.sort compare (List.map (fun (n, ((ps, sh), tg)) ->
+           to_string (L [A (atom_of_str n); L (A "parents" :: List.map (fun p -> A (atom_of_str p)) ps);
+                         L [A "shape"; (match sh with None -> A "none" | Some fs -> sx_of_rrec fs)];
+                         L [A "tags"; (match tg with None -> A "none" | Some t -> sx_of_rty t)]])) (last_wins fst r.rs_entities)) in
+       let acts = List.sort compare (List.map (fun (u, (ps, ap)) ->
+           let ps = List.sort_uniq compare (List.map (fun p -> to_string (uid_sx p)) ps) in
+           to_string (L [uid_sx u; L (A "parents" :: List.map (fun p -> parse p) ps);
+                         L [A "applies"; (match ap with None -> A "none" | Some ((pr, rr), cx) ->
+                             L [A "ap"; L (A "principals" :: List.map (fun p -> A (atom_of_str p)) pr); L (A "resources" :: List.map (fun p -> A (atom_of_str p)) rr); sx_of_rrec cx])]]))
+           (last_wins fst r.rs_actions)) in
+       L [A "ok"; L (A "entities" :: List.map parse ents); L (A "actions" :: List.map parse acts)])
+  | _ -> failwith "schemaresolve payload"
+
 let run_case kind payload =
   match kind with
+  | "schemaresolve" -> run_schemaresolve payload
   | "pjsonenc" -> run_pjsonenc payload
   | "pjsondec" -> run_pjsondec payload
   | "jsonenc" -> run_jsonenc payload
